@@ -1865,3 +1865,10 @@ package stackage
 //@ modifies F_nodeConfig_enc[r], Mem_Slice[arr(F_nodeConfig_enc[r])], Mem_Slice[fresh]
 //@ loop 1 invariant 0 <= i && i <= 2 && F_nodeConfig_enc[r] == enc0 && (found ==> used) && (!found && i >= 1 ==> !inUse(enc0, s0, n0)) && (!found && i >= 2 ==> !inUse(enc0, s1, n0))
 //@ loop 2 invariant 0 <= u && u <= n0 && 0 <= i && i < 2 && F_nodeConfig_enc[r] == enc0 && (found ==> used) && (!found && i >= 1 ==> !inUse(enc0, s0, n0)) && (!found ==> !inUse(enc0, Mem_Str[arr(x)][off(x) + i], u))
+
+//@ func (Condition).SetEncap @safe
+//@ note safety only, in its own mode (callers keep inlining the body)
+//@ tags C18
+//@ safety C18
+//@ requires (r == nil || cwf(r)) && okslice(x, alloc)
+//@ noframe
